@@ -3116,18 +3116,22 @@ func (o *OperandOrDeferredTransfer) Decode(decoder *Decoder) error {
 	isDeferredTransfer := firstByte == 1
 	if isOperand {
 		cLog(Cyan, "OperandOrDeferredTransfer is Operand")
-		if err = o.Operand.Decode(decoder); err != nil {
+		operand := &Operand{}
+		if err = operand.Decode(decoder); err != nil {
 			return err
 		}
+		o.Operand, o.DeferredTransfer = operand, nil
 		return nil
 	} else if isDeferredTransfer {
 		cLog(Cyan, "OperandOrDeferredTransfer is DeferredTransfer")
-		if err = o.DeferredTransfer.Decode(decoder); err != nil {
+		transfer := &DeferredTransfer{}
+		if err = transfer.Decode(decoder); err != nil {
 			return err
 		}
+		o.Operand, o.DeferredTransfer = nil, transfer
 		return nil
 	}
-	return nil
+	return fmt.Errorf("invalid OperandOrDeferredTransfer discriminator %d", firstByte)
 }
 
 func (e *ExtrinsicData) Decode(d *Decoder) error {
